@@ -8,7 +8,7 @@ use rsdd::builder::bdd::RobddBuilder;
 use rsdd::builder::cache::AllIteTable;
 use rsdd::constants::primes;
 use rsdd::repr::{create_semantic_hash_map, BddPtr, DDNNFPtr, VarLabel, WmcParams};
-use rsdd::util::semirings::{Complex, FiniteField, RealSemiring};
+use rsdd::util::semirings::{Complex, FiniteField, Polynomial, RealSemiring, Semiring};
 use std::collections::HashMap;
 
 fn ff_params<const P: u128>(w: &[(u128, u128)]) -> WmcParams<FiniteField<P>> {
@@ -83,6 +83,14 @@ pub fn wmc_lines(rng: &mut Rng, maxvars: usize, maxops: usize) -> Vec<String> {
     // complex weights in quarters, low + high = 1 + 0i; about half of the variables purely real
     let wc: Vec<(i64, i64)> = (0..n).map(|_| (rng.below(9) as i64 - 2, if rng.coin() { 0 } else { rng.below(7) as i64 - 3 })).collect();
 
+    // polynomial weights (1 - x^d, x^d): degrees are distinct powers of two on the first five
+    // variables (products reach every degree up to 31 = MAX_COEFFS - 1) and small otherwise
+    let wpd: Vec<usize> = {
+        let mut ds = vec![16usize, 8, 4, 2, 1];
+        rng.shuffle(&mut ds);
+        (0..n).map(|v| if v < 5 { ds[v] } else { rng.below(4) as usize }).collect()
+    };
+
     let mut out = Vec::new();
     rsdd::verif_hooks::set_table_capacity(Some(8));
     let order = mk_order(&prog.order);
@@ -104,7 +112,7 @@ pub fn wmc_lines(rng: &mut Rng, maxvars: usize, maxops: usize) -> Vec<String> {
     for &i in picks.iter() {
         let d = pool[i];
         let head = format!(
-            "wmc n={} order={} d={} P={} wn={} wa={} wr={} wc={}",
+            "wmc n={} order={} d={} P={} wn={} wa={} wr={} wc={} wpd={}",
             n,
             csv(&prog.order),
             bdd_raw_string(d),
@@ -112,7 +120,8 @@ pub fn wmc_lines(rng: &mut Rng, maxvars: usize, maxops: usize) -> Vec<String> {
             pairs(&wn),
             pairs(&wa),
             csv(&wr),
-            wc.iter().map(|(a, b)| format!("{}:{}", a, b)).collect::<Vec<_>>().join(",")
+            wc.iter().map(|(a, b)| format!("{}:{}", a, b)).collect::<Vec<_>>().join(","),
+            csv(&wpd)
         );
         let r = guarded(|| {
             let tt: String = (0..(1usize << n))
@@ -170,15 +179,32 @@ pub fn wmc_lines(rng: &mut Rng, maxvars: usize, maxops: usize) -> Vec<String> {
                 let (re, im) = (*a as f64 / 4.0, *bq as f64 / 4.0);
                 cm.insert(VarLabel::new_usize(x), (Complex { re, im }, Complex { re: 1.0 - re, im: -im }));
             }
+            let mut pmap = HashMap::new();
+            for (x, dg) in wpd.iter().enumerate() {
+                let mut hi = Polynomial::<RealSemiring>::zero();
+                hi.coefficients[*dg] = RealSemiring(1.0);
+                hi.len = *dg + 1;
+                let mut lo = Polynomial::<RealSemiring>::zero();
+                lo.coefficients[0] = RealSemiring(1.0);
+                lo.coefficients[*dg] = RealSemiring(lo.coefficients[*dg].0 - 1.0);
+                lo.len = *dg + 1;
+                pmap.insert(VarLabel::new_usize(x), (lo, hi));
+            }
+            let pparams = WmcParams::new(pmap);
+            let pstr = |q: Polynomial<RealSemiring>| -> String {
+                format!("{}:{}", q.len, q.coefficients[..q.len].iter().map(|c| f64_exact(c.0)).collect::<Vec<_>>().join(";"))
+            };
+            let cp = pstr(d.unsmoothed_wmc(&pparams));
+            let cpn = pstr(d.neg().unsmoothed_wmc(&pparams));
             let cxp = WmcParams::new(cm);
             let cx = d.unsmoothed_wmc(&cxp);
             let cxn = d.neg().unsmoothed_wmc(&cxp);
             let (sh, shw) = by_prime!(pi, sem_hash, d, n);
             let (shn, _) = by_prime!(pi, sem_hash, d.neg(), n);
             format!(
-                "tt={} cn={} ca={} sm={} sa={} mc={} cr={} aw={}:{} cx={},{} cxn={},{} nodes={} sh={} shn={} shw={} smk={}",
+                "tt={} cn={} ca={} sm={} sa={} mc={} cr={} aw={}:{} cx={},{} cxn={},{} cp={} cpn={} nodes={} sh={} shn={} shw={} smk={}",
                 tt, cn, ca, bdd_raw_string(sm), sa, mc, f64_exact(cr), abits, f64_exact(aw), f64_exact(cx.re), f64_exact(cx.im),
-                f64_exact(cxn.re), f64_exact(cxn.im), d.count_nodes(), sh, shn, pairs(&shw), smk.join(";")
+                f64_exact(cxn.re), f64_exact(cxn.im), cp, cpn, d.count_nodes(), sh, shn, pairs(&shw), smk.join(";")
             )
         });
         out.push(format!("{} => {}", head, r.unwrap_or_else(|e| e)));
